@@ -305,14 +305,15 @@ class SymDict(Val):
     """Mutable dict with symbolic initial content (base) and a write log.  Keys are compared by the
     z3 identity of their lifted terms (A-EQ-KEY: a look-up with an equal key is a look-up with that key).
     inv: optional callable(I, key Val, value Val) assuming the dict invariant for an entry found in base."""
-    __slots__ = ("base", "writes", "inv", "name", "removed")
+    __slots__ = ("base", "writes", "inv", "name", "removed", "value_kind")
 
-    def __init__(self, base=None, inv=None, name="dict"):
+    def __init__(self, base=None, inv=None, name="dict", value_kind=None):
         self.base = base
         self.writes = []
         self.inv = inv
         self.name = name
         self.removed = []
+        self.value_kind = value_kind      # "int": every value found in the base is an integer (a contract's precondition on the dict)
 
 
 class SymBV(Val):
